@@ -547,7 +547,7 @@ def run_observable(ctx, lin, exes, variants, n_per_variant, stats, corpus=()):
     jobs = []
     for v in variants:
         rng = ctx.rng.fork()
-        cases = [c for c in corpus if c.get("variant") == v and not c.get("step")]
+        cases = [c for c in corpus if c.get("variant") == v and not c.get("step") and not c.get("ellen_step")]
         cases += [gen_case(rng, v, "v%d_%d" % (v, i)) for i in range(n_per_variant)]
         jobs.append((v, cases))
     viol = []
@@ -653,7 +653,7 @@ def step_correspondence(ctx, lin, only=None):
         cases = [only]
     rc1, mlog, rc2, ilog, raw = conc_check.run_both(ctx, model, impl, cases, tag="skipstep", timeout=1500, fuel=60000)
     diverged, steps, first = 0, 0, None
-    contended, shapes = 0, set()
+    contended, shapes, by_theorem = 0, set(), 0
     for c in cases:
         m, i = mlog.get(c["id"]), ilog.get(c["id"])
         if m is None or i is None:
@@ -668,6 +668,11 @@ def step_correspondence(ctx, lin, only=None):
         if dv is not None:
             diverged += 1
             first = first or (c, dv)
+        elif (all(o[0] in (1, 6, 10) for th in c["threads"] for o in th) and m.get("end") == "finished"
+              and not any("outoffuel" in l for l in m["lines"])):
+            # hypotheses of C15_skip_run_case_updates_linearizable hold for this model trace, and the trace of the real
+            # code is the same trace: its update history is linearizable by the theorem
+            by_theorem += 1
     if first is not None:
         # the correspondence broke: look for a concrete non-linearizable history of the real skip list on these programs
         hs = [step_history(c, ilog[c["id"]]["lines"]) for c in cases if c["id"] in ilog and ilog[c["id"]]["end"] == "finished"]
@@ -688,8 +693,94 @@ def step_correspondence(ctx, lin, only=None):
                     "help_remove, renew_insert_position, insert_at_position, try_remove_at, find_min/max_position, HP guards, retire; c_nMaxHeight = 3, keys 0..3",
         "cases": len(cases), "diverged": diverged, "impl_steps_compared": steps, "traces_validated_against_impl": len(cases) - diverged,
         "distinct_event_logs": len(shapes), "cases_with_failed_cas": contended,
+        "impl_traces_whose_update_history_is_linearizable_by_theorem": by_theorem,
+        "theorem": "C15_skip_run_case_updates_linearizable (programs of insert/erase/contains, no out-of-fuel event; the compared "
+                   "implementation trace is the model trace)",
         "rule": "1-3 threads x 1-3 operations, keys 0..3, prefilled subsets, tower heights 1..3; uniform / bursty / run-then-switch / round-robin schedules; "
                 "every atomic access (kind, canonical object, success) and every client event compared line by line"}
+    return diverged
+
+
+def gen_ellen_case(rng, cid):
+    """EllenBinTree<HP> step case: half of them high-contention (few keys, fine-grained switching)"""
+    hot = rng.below(2) == 1
+    nth = (2 + rng.below(2)) if hot else (1 + rng.below(3))
+    cfg = [rng.below(16)]
+    nk = (1 + rng.below(3)) if hot else 4
+    threads = [[[rng.choice([1, 1, 6, 6, 10]), rng.below(nk)] for _ in range((2 if hot else 1) + rng.below(3 if not hot else 2))] for _ in range(nth)]
+    kind = 4 if hot else rng.below(4)
+    if kind == 0:
+        sched = [rng.below(nth) for _ in range(20 + rng.below(500))]
+    elif kind == 1:
+        sched = []
+        for _ in range(2 + rng.below(25)):
+            sched += [rng.below(nth)] * (1 + rng.below(70))
+    elif kind == 2:
+        sched = [rng.below(nth)] * (3 + rng.below(200)) + [rng.below(nth)] * (3 + rng.below(200)) + [rng.below(nth) for _ in range(200)]
+    elif kind == 3:
+        sched = []
+    else:
+        sched = []
+        for _ in range(40 + rng.below(300)):
+            sched += [rng.below(nth)] * (1 + rng.below(rng.choice([2, 4, 12, 40])))
+    return {"id": cid, "cfg": cfg, "threads": threads, "sched": sched, "ellen": True}
+
+
+def step_correspondence_ellen(ctx, lin, only=None):
+    """LV.Model.Ellen vs cds::intrusive::EllenBinTree<HP>, access by access; the model also checks the leaf-oriented BST
+    invariant after EVERY step (a violated monitor shows up as an extra last line of the model log)."""
+    import conc_check
+    model = conc_check.build_model(ctx, "Extract_Ellen.v", tag="ellen_model")
+    d = os.path.join(SHARED, "bin" + ("" if vcheck.REPO == "/repo" else "_" + hashlib.sha256(vcheck.REPO.encode()).hexdigest()[:8]))
+    impl = vcheck.cxx_build(os.path.join(vcheck.VERIF, "harness/C15/step_ellen.cpp"), os.path.join(d, "step_ellen"), hook=True)
+    n = 3000 if ctx.thorough() else 400
+    rng = ctx.rng.fork()
+    cases = [c for c in load_corpus("C15") if c.get("ellen_step")] + [gen_ellen_case(rng, "e%d" % i) for i in range(n)]
+    if only is not None:
+        cases = [only]
+    rc1, mlog, rc2, ilog, raw = conc_check.run_both(ctx, model, impl, cases, tag="ellenstep", timeout=1500, fuel=60000)
+    diverged, steps, first, contended, shapes, monitor_fired = 0, 0, None, 0, set(), 0
+    for c in cases:
+        m, i = mlog.get(c["id"]), ilog.get(c["id"])
+        if m is None or i is None:
+            diverged += 1
+            first = first or (c, {"index": -1, "model": "<no output>" if m is None else "ok", "impl": "<no output>" if i is None else "ok", "prefix": []})
+            continue
+        steps += len(i["lines"])
+        if any("monitor_bst_violated" in l for l in m["lines"]):
+            monitor_fired += 1
+        dv = conc_check.compare(m, i)
+        shapes.add(hash(tuple(m["lines"])))
+        if any(" cas " in l and l.endswith(" 0") for l in m["lines"]):
+            contended += 1
+        if dv is not None:
+            diverged += 1
+            first = first or (c, dv)
+    if first is not None:
+        hs = [step_history(c, ilog[c["id"]]["lines"]) for c in cases if c["id"] in ilog and ilog[c["id"]]["end"] == "finished"]
+        cs = [c for c in cases if c["id"] in ilog and ilog[c["id"]]["end"] == "finished"]
+        found = False
+        for v, c, h in zip(run_lincheck(lin, "set", hs, ctx.work, "ellenstep"), cs, hs):
+            if v != "OK":
+                ctx.violation("intrusive::EllenBinTree<HP> (step harness): history is not linearizable w.r.t. SetSpec (lincheck: %s)" % v,
+                              {"case": c, "history": h, "ellen_step": True})
+                found = True
+                break
+        if not found:
+            c, dv = first
+            what = ("EllenBinTree<HP>: the leaf-oriented BST invariant is violated at an intermediate state (model monitor, trace equal to the implementation's)"
+                    if "monitor_bst_violated" in str(dv.get("model")) else
+                    "step correspondence between LV.Model.Ellen and cds/intrusive/impl/ellen_bintree.h no longer holds")
+            ctx.violation(what, {"correspondence": "Model/Ellen.v vs cds::intrusive::EllenBinTree<HP>", "case": c, "first_divergence": dv, "ellen_step": True}, no_input=True)
+    ctx.coverage["step_correspondence_ellen"] = {
+        "modelled": "cds::intrusive::EllenBinTree<HP>: insert (try_insert, help_insert), erase (check_delete_precondition, help_delete, help_marked), "
+                    "contains, search with protect_child_node / search_protect_update and its retries, HP guards, m_nFlags loads, m_nEmptyUpdate, retire; keys 0..3",
+        "cases": len(cases), "diverged": diverged, "impl_steps_compared": steps, "traces_validated_against_impl": len(cases) - diverged,
+        "distinct_event_logs": len(shapes), "cases_with_failed_cas": contended,
+        "bst_monitor": "tree_ok (keys of the left subtree < key <= keys of the right subtree, Inf1 < Inf2 on top, two children per internal node) "
+                       "evaluated by the model after every atomic step; violations: %d" % monitor_fired,
+        "rule": "1-3 threads x 1-3 operations, keys 0..3, prefilled subsets; uniform / bursty / run-then-switch / round-robin schedules, half of the cases "
+                "high-contention (1-3 keys, 2-3 threads, fine-grained switching); every atomic access (kind, canonical object, success) and every client event compared"}
     return diverged
 
 
@@ -701,8 +792,10 @@ def load_corpus(pid):
             if f.endswith(".json"):
                 c = json.load(open(os.path.join(cdir, f)))
                 step = c.get("step", False)
+                estep = c.get("ellen_step", False)
                 c = c.get("case", c)
                 c["step"] = step
+                c["ellen_step"] = estep
                 c["id"] = "corpus_" + f[:-5]
                 c["variant"] = c["cfg"][0]
                 out.append(c)
@@ -728,9 +821,12 @@ def run(ctx):
     if ctx.replay:
         rp = json.load(open(ctx.replay))
         c = rp["case"]
-        if rp.get("step") or "first_divergence" in rp or "correspondence" in rp:
+        if rp.get("step") or "first_divergence" in rp or "correspondence" in rp or rp.get("ellen_step"):
             c.setdefault("id", "replay")
-            step_correspondence(ctx, lin, only=c)
+            if rp.get("ellen_step") or c.get("ellen"):
+                step_correspondence_ellen(ctx, lin, only=c)
+            else:
+                step_correspondence(ctx, lin, only=c)
             ctx.coverage.update({"evaluations": 1, "distinct_nontrivial": 0, "rule": "replay (step correspondence)", "samples": [c]})
             return ctx.finish(vcheck.STD_TRUSTED)
         c["variant"] = c["cfg"][0]
@@ -749,6 +845,7 @@ def run(ctx):
     if not res.ok:
         ctx.violation("Coq obligations of C15 do not check: %s" % (res.failed[:2],), {"theorem": [f[2] for f in res.failed], "errors": res.failed[:3]}, no_input=True)
     step_correspondence(ctx, lin)
+    step_correspondence_ellen(ctx, lin)
     per = summarize(stats)
     tot = lambda k: sum(d[k] for d in per.values())
     sample = jobs[variants[0]][len(corpus):len(corpus) + 1]
